@@ -1,35 +1,56 @@
 """C20 - format detection: total, consistent with the documented order, recognises own output.
 
 Streams
-  A  exhaustive short strings over a symbol alphabet (digits, newlines, braces, arrow pieces, marker words)
-  B  truncations of valid documents (writer outputs) at every code point
-  C  random longer strings over the same symbols
-  D  own output: writer(caption set) -> detect_format -> that reader reads it
-Observation per string: the six readers' own detect outcome (documented order) + detect_format outcome.
-Correspondence: observation == extracted model's observation.  Property oracle: Coq ok_detect (spec/SpecDetect.v)
-evaluated on the implementation's observation.
+  A  exhaustive short strings: a core alphabet (digits, newlines, braces, arrow pieces, marker words) and an extended one
+     (BOM, tab, NUL, every str.splitlines boundary, NBSP, non-ASCII digits and cased letters, CRLF)
+  B  truncations of complete writer outputs (small documents at every code point, large ones sampled)
+  C  random strings: symbol soup, random text with markers dropped in, long filler (10^4..10^5 chars) + marker
+  D  own output: writer(caption set) -> detect_format -> that reader reads it (1-3 languages, empty languages, style
+     nodes, line breaks inside text, later formats' markers in the text, 1..500 captions)
+  E  marker boundary cases: each sniffing constant alone and with one character removed / changed
+
+What alarms
+  * violation: the PROPERTY ORACLE (Coq ok_detect, spec/SpecDetect.v) is false on what the implementation did, for
+    every string of A, B, C, E; stream D: detect_format(writer output) is not the writer's reader, or that reader raises.
+  * disagreement (model no longer mirrors the code where the property depends on it): stream E (sniffer outcome on the
+    marker boundary cases) and detect_format on complete writer outputs (B, D).
+  Everything else the model says (each sniffer's answer on arbitrary strings, sniffers on the empty string, a later
+  sniffer raising after an earlier one accepted) is compared and COUNTED in the evidence, never alarmed on: the
+  statement is parametric in "its own detect".
 """
 import itertools
+import re
 
 import impl
 import gens
-from wire import Ok, Err, oracle_batch, r_result, r_opt, Some
+from wire import Ok, Err, oracle_batch, oracle1, r_result, r_opt, Some
 import pycaption
 from pycaption import (DFXPReader, MicroDVDReader, WebVTTReader, SAMIReader, SRTReader, SCCReader,
-                       DFXPWriter, MicroDVDWriter, WebVTTWriter, SAMIWriter, SRTWriter, SCCWriter)
+                       DFXPWriter, MicroDVDWriter, WebVTTWriter, SAMIWriter, SRTWriter, SCCWriter,
+                       CaptionSet, CaptionList, Caption, CaptionNode)
 
 DOCUMENTED = [DFXPReader, MicroDVDReader, WebVTTReader, SAMIReader, SRTReader, SCCReader]
 NAMES = ["DFXP", "MicroDVD", "WebVTT", "SAMI", "SRT", "SCC"]
-SYMS = ["0", "1", "\n", "\r", "{", "}", "-", ">", "<", " ", "W", "E", "B", "V", "T", "/", "t",
-        "</tt>", "WEBVTT", "<sami", "-->", "{1}{2}", "Scenarist_SCC V1.0", " ", "9", "</TT>", "<SAMI"]
+CORE = ["0", "1", "\n", "\r", "{", "}", "-", ">", "<", " ", "W", "E", "B", "V", "T", "/", "t",
+        "</tt>", "WEBVTT", "<sami", "-->", "{1}{2}", "Scenarist_SCC V1.0", "\u2028", "9", "</TT>", "<SAMI"]
+EXT = ["\ufeff", "\t", "\x00", "\x0b", "\x0c", "\x1c", "\x1d", "\x1e", "\x85", "\u2028", "\u2029", "\xa0", "\u3000",
+       "\r\n", "\u00b2", "\u0661", "\uff11", "\u2460", "\u07c0", "\u0130", "\u212a", "<sam\u0130", "\u00e9", "\u03a3", "a",
+       "{\u0661}{\uff11}", "</t\u0131t>"]
+# ² superscript two: isdigit, not \d.  ١ / １ / ߀: isdigit and \d.  ① circled one: isdigit only.
+# İ: lower() = "i" + U+0307.  K Kelvin: lower() = "k".  ı dotless i, Σ sigma: lower() non-ASCII.
+
+
+def call_fast(f):
+    try:
+        return Ok(f())
+    except Exception as e:  # noqa
+        impl.last_exc = e
+        return Err(impl.err_code(e))
 
 
 def observe(s):
-    ds = []
-    for r in DOCUMENTED:
-        o = impl.call(lambda: bool(r().detect(s)))
-        ds.append(o)
-    df = impl.call(lambda: pycaption.detect_format(s))
+    ds = [call_fast(lambda: bool(r().detect(s))) for r in DOCUMENTED]
+    df = call_fast(lambda: pycaption.detect_format(s))
     if isinstance(df, Ok):
         cls = df.v
         if cls is None:
@@ -41,9 +62,12 @@ def observe(s):
     return ds, df
 
 
-def obs_plain(ds, df):
-    return ([d.v if isinstance(d, Ok) else ("raise", d.code) for d in ds],
-            (None if df.v is None else df.v.v) if isinstance(df, Ok) else ("raise", df.code))
+def plain_ds(ds):
+    return [d.v if isinstance(d, Ok) else ("raise", d.code) for d in ds]
+
+
+def plain_df(df):
+    return ((None if df.v is None else df.v.v) if isinstance(df, Ok) else ("raise", df.code))
 
 
 def model_plain(resp):
@@ -53,164 +77,545 @@ def model_plain(resp):
             df.v if isinstance(df, Ok) else ("raise", df.code))
 
 
-def modelable(s):
-    # str.isdigit / str.lower outside ASCII are not modelled (DESIGN section 6)
-    return all(ord(c) < 128 or c in "  \x85" or not (c.isdigit() or c.lower() != c or c.upper() != c) for c in s)
+def bump(d, k, n=1):
+    d[k] = d.get(k, 0) + n
 
 
-def check_strings(strings, res, tag):
-    reqs_m, reqs_ok, obs = [], [], []
-    for s in strings:
-        ds, df = observe(s)
-        obs.append((ds, df))
-        reqs_m.append((2000, s))
-        reqs_ok.append((2001, [len(s) > 0, ds, df]))
-    models = oracle_batch(reqs_m)
-    oks = oracle_batch(reqs_ok)
+def check_strings(strings, res, tag, strict_sniffers=False, complete_docs=False):
+    """property oracle on every string; model comparison: alarm level only where the docstring says so"""
+    dist = res["distribution"]
+    obs = [observe(s) for s in strings]
+    models = oracle_batch([(2000, s) for s in strings])
+    oks = oracle_batch([(2001, [len(s) > 0, ds, df]) for s, (ds, df) in zip(strings, obs)])
     for s, (ds, df), m, ok in zip(strings, obs, models, oks):
         res["evaluations"] += 1
-        plain = obs_plain(ds, df)
-        if any(plain[0]) or plain[1] is not None:
-            res["nontrivial"].add(s)
-        if ok != 1:
+        pds, pdf = plain_ds(ds), plain_df(df)
+        if any(x is True for x in pds) or pdf is not None:
+            res["nontrivial"].add(s if len(s) < 300 else (tag, len(s), hash(s)))
+        if any(ord(c) > 127 for c in s[:2000]):
+            bump(dist, tag + "_strings_with_non_ascii")
+        if ok[0] != 1:
+            raised = isinstance(df, Err)
             res["violations"].append({
-                "kind": "detect-raises" if any(isinstance(d, Err) for d in ds) or isinstance(df, Err) else "detect-inconsistent",
-                "what": f"detect on {s!r}: readers {plain[0]}, detect_format {plain[1]}",
-                "input": s, "stream": tag, "impl_obs": plain, "replay": "detect"})
-        elif modelable(s) and model_plain(m) != plain:
-            res["disagreements"].append({"input": s, "stream": tag, "impl": plain, "model": model_plain(m)})
+                "kind": ("detect-raises" if raised and s else "empty-not-no-captions" if not s else "detect-inconsistent"),
+                "what": f"detect_format on {s[:120]!r}{'...' if len(s) > 120 else ''}: readers' own detect {pds}, "
+                        f"detect_format {pdf}",
+                "input": s, "stream": tag, "impl_obs": [pds, pdf], "replay": "detect"})
+            continue
+        mds, mdf = model_plain(m)
+        if s and ok[1] != 1:
+            bump(dist, "info_sniffer_raises_where_detect_format_does_not_consult_it")
+        if not s:
+            if mds != pds:
+                bump(dist, "info_sniffers_on_empty_string_differ_from_model")
+            continue
+        if mds != pds:
+            if strict_sniffers:
+                res["disagreements"].append({"input": s, "stream": tag, "what": "sniffer outcome on a marker boundary case",
+                                             "impl": pds, "model": mds})
+            else:
+                bump(dist, "info_sniffer_outcome_differs_from_model")
+                for i in range(6):
+                    if mds[i] != pds[i]:
+                        bump(dist, "info_sniffer_outcome_differs_from_model_" + NAMES[i])
+        if mdf != pdf:
+            if complete_docs:
+                res["disagreements"].append({"input": s, "stream": tag, "what": "detect_format on a complete writer output",
+                                             "impl": pdf, "model": mdf})
+            else:
+                bump(dist, "info_detect_format_differs_from_model")
     return res
 
 
+# ------------------------------------------------------------------------------------------------ stream E
+def boundary_strings():
+    """each sniffing constant alone (accepted by the owning sniffer), with each single character removed and with each
+    single cased character case-flipped; nothing is put in front of or behind the constant, so a sniffer that becomes
+    stricter about the POSITION of its marker agrees on all of them"""
+    out = []
+    for m in ["</tt>", "WEBVTT", "<sami", "Scenarist_SCC V1.0", "{1}{2}", "{12}{345}", "1\n-->", "12\n00:00:01,000 --> 00:00:02,000"]:
+        out.append(m)
+        for i in range(len(m)):
+            out.append(m[:i] + m[i + 1:])
+            if m[i].swapcase() != m[i]:
+                out.append(m[:i] + m[i].swapcase() + m[i + 1:])
+    out += ["Scenarist_SCC V1.0\n", "Scenarist_SCC V1.0\n\n00:00:00:00\t9420", "{1}{2}x", "{1}{}", "{a}{1}", "{1} {2}"]
+    return sorted(set(out))
+
+
+# ------------------------------------------------------------------------------------------------ stream D
 WRITERS = [("DFXP", DFXPWriter, DFXPReader), ("MicroDVD", MicroDVDWriter, MicroDVDReader),
            ("WebVTT", WebVTTWriter, WebVTTReader), ("SAMI", SAMIWriter, SAMIReader),
            ("SRT", SRTWriter, SRTReader), ("SCC", SCCWriter, SCCReader)]
-# markers of formats probed before the writer's own format (documented order)
-EARLIER = {"DFXP": [], "MicroDVD": ["</tt>"], "WebVTT": ["</tt>"], "SAMI": ["</tt>", "webvtt"],
-           "SRT": ["</tt>", "webvtt", "<sami"], "SCC": ["</tt>", "webvtt", "<sami"]}
-BASIC = "abcdefghijklmnopqrstuvwxyz ABCDEFGHIJKLMNOPQRSTUVWXYZ0123456789.,!?'-"
+# decision xii: markers of formats probed BEFORE the writer's own format (documented order), case-insensitive where
+# the sniffer is
+EARLIER = {"DFXP": [], "MicroDVD": ["</tt>"], "WebVTT": ["</tt>"], "SAMI": ["</tt>", "WEBVTT"],
+           "SRT": ["</tt>", "WEBVTT", "<sami"], "SCC": ["</tt>", "WEBVTT", "<sami"]}
+OTHER_MARKER_TEXTS = ["WEBVTT", "<sami>", "<SAMI>", "Scenarist_SCC V1.0", "{1}{2}", "{1}{2}hi", "</tt>", "</TT>",
+                      "1\n00:00:01,000 --> 00:00:02,000", "a --> b", "x</tt>y", "webvtt", "<sam\u0130"]
+# not markers, but one character away from one: in the domain, must not disturb detection
+NEAR_MARKER_TEXTS = ["</tt", "/tt>", "</t t>", "<tt>", "WEBVT", "EBVTT", "WEB VTT", "<sam", "sami", "< sami", "->", "-- >",
+                     "Scenarist_SCC V1.", "{1}{", "{1}2}", "</tt\n>"]
+INNER_BREAKS = ["a\nb", "a\n\nb", "a\rb", "a\r\nb", "a\x0bb", "a\x0cb", "a\x85b", "a\u2028b", "a\u2029b", "\nx", "x\n"]
+FIRST_LANGUAGE_ONLY = ("WebVTT", "SCC")
+LANG_NAMES = ["en-US", "fr", "de", "pt-BR", "zh-Hans", "und"]
+STYLE_NODES = [{"italics": True}, {"bold": True}, {"underline": True}, {"italics": True, "bold": True}]
 
 
-def own_output_case(rng, fmt):
-    name, W, R = fmt
-    if name == "SCC":
-        text = lambda: "".join(rng.choice(BASIC) for _ in range(rng.randint(1, 20))).strip() or "x"  # noqa: E731
-        cs = gens.simple_capset(rng, 1, (1, 3), text=text, unit=1000000, maxlines=2)
-        # SCC needs spacing; stretch times
-        for i, c in enumerate(cs.get_captions("en-US")):
-            c.start = (i * 10 + 5) * 10**6
-            c.end = (i * 10 + 8) * 10**6
-    else:
-        def text():
-            while True:
-                t = gens.rand_text(rng, adversarial=0.5)
-                if not any(m in t.lower() for m in EARLIER[name]) and gens.visible(t):
-                    return t
-        cs = gens.simple_capset(rng, 1, (1, 3), text=text)
-    return cs
+def has_marker(t, m):
+    return (m in t) if m == "WEBVTT" else (m in t.lower())
+
+
+def in_domain_text(name, t):
+    return not any(has_marker(t, m) for m in EARLIER[name])
+
+
+def literal_other_marker(name, t):
+    """the literal reading of 'another format's marker': ANY other format's marker, also of formats probed later"""
+    low = t.lower()
+    hits = []
+    if name != "DFXP" and "</tt>" in low:
+        hits.append("dfxp")
+    if name != "WebVTT" and "webvtt" in low:
+        hits.append("webvtt")
+    if name != "SAMI" and "<sami" in low:
+        hits.append("sami")
+    if name not in ("SRT", "WebVTT") and "-->" in t:
+        hits.append("srt")
+    if name != "SCC" and "scenarist_scc" in low:
+        hits.append("scc")
+    if name != "MicroDVD" and re.search(r"\{\d+\}\{\d+\}", t):
+        hits.append("microdvd")
+    return hits
+
+
+def scc_charset():
+    from pycaption.scc import constants as k
+    chars = set()
+    for table in ("CHARACTERS", "SPECIAL_CHARS", "EXTENDED_CHARS"):
+        for v in getattr(k, table, {}).values():
+            if isinstance(v, str) and len(v) == 1 and v not in "\n\r":
+                chars.add(v)
+    return sorted(chars)
+
+
+def gen_text(rng, name, flavour, clean=False):
+    """clean: resample until the text carries no earlier format's marker (large sets would otherwise never be in the
+    domain)"""
+    while True:
+        t = gen_text1(rng, name, flavour)
+        if not clean or in_domain_text(name, t):
+            return t
+
+
+def gen_text1(rng, name, flavour):
+    r = rng.random()
+    if flavour == "scc":
+        cs = scc_charset()
+        if r < 0.5:
+            return "".join(rng.choice(cs) for _ in range(rng.randint(1, 40))).strip() or "x"
+        return "".join(rng.choice("abcdefghij KLMNOP.,!?'-0123456789") for _ in range(rng.randint(1, 70))).strip() or "x"
+    if r < 0.09:
+        return rng.choice(OTHER_MARKER_TEXTS)
+    if r < 0.14:
+        return rng.choice(NEAR_MARKER_TEXTS)
+    if r < 0.2:
+        return rng.choice(INNER_BREAKS)
+    if r < 0.23:
+        return rng.choice(["|", "| |", "a|b", "|x", "x|"])
+    return gens.rand_text(rng, adversarial=0.5)
+
+
+def layouts():
+    from pycaption.geometry import (Layout, Alignment, HorizontalAlignmentEnum, VerticalAlignmentEnum, Point, Size,
+                                    UnitEnum)
+    return [Layout(alignment=Alignment(HorizontalAlignmentEnum.CENTER, VerticalAlignmentEnum.BOTTOM)),
+            Layout(origin=Point(Size(10, UnitEnum.PERCENT), Size(80, UnitEnum.PERCENT)))]
+
+
+def gen_nodes(rng, name, flavour, clean=False):
+    if flavour != "scc" and rng.random() < 0.25:
+        # the caption shapes of the text properties (C03/C08 generator): empty lines, edge breaks, style spans
+        import gens_text
+        while True:
+            nodes = gens_text.build_nodes(gens_text.rand_caption_nodes(rng))
+            if not clean or all(in_domain_text(name, n.content) for n in nodes if n.type_ == CaptionNode.TEXT):
+                return nodes
+    nodes = []
+    nlines = rng.randint(1, 3)
+    styled = rng.random() < 0.25 and flavour != "scc"
+    for i in range(nlines):
+        if i:
+            nodes.append(CaptionNode.create_break())
+        if styled and rng.random() < 0.6:
+            st = rng.choice(STYLE_NODES)
+            nodes.append(CaptionNode.create_style(True, dict(st)))
+            nodes.append(CaptionNode.create_text(gen_text(rng, name, flavour, clean)))
+            nodes.append(CaptionNode.create_style(False, dict(st)))
+        else:
+            nodes.append(CaptionNode.create_text(gen_text(rng, name, flavour, clean)))
+    return nodes
+
+
+def own_output_case(rng, fmt, big=0):
+    """a caption set; returns (set, info) - info says whether it lies in the domain of the own-output sentence"""
+    name = fmt[0]
+    flavour = "scc" if name == "SCC" else "text"
+    nlangs = rng.choice([1, 1, 1, 2, 2, 3])
+    langs = rng.sample(LANG_NAMES, nlangs)
+    empty_at = set()
+    positioned = [False]
+    if nlangs > 1 and rng.random() < 0.4:
+        empty_at.add(rng.randrange(nlangs))          # an empty first or later language
+    d = {}
+    for li, lang in enumerate(langs):
+        if li in empty_at:
+            d[lang] = CaptionList()
+            continue
+        n = big if (big and li == 0) else rng.randint(1, 4)
+        caps = []
+        if name == "SCC":
+            t = rng.randrange(2, 40) * 10 ** 6
+            for i in range(n):
+                caps.append(Caption(t, t + 3 * 10 ** 6, gen_nodes(rng, name, flavour, bool(big))))
+                t += 10 * 10 ** 6
+        else:
+            for (s, e) in gens.rand_times(rng, n):
+                nodes = gen_nodes(rng, name, flavour, bool(big))
+                lay = rng.choice(layouts()) if rng.random() < 0.2 else None      # positioned captions
+                if lay is not None:
+                    positioned[0] = True
+                    for nd in nodes:
+                        nd.layout_info = lay
+                caps.append(Caption(s, e, nodes, layout_info=lay))
+        d[lang] = CaptionList(caps)
+    cs = CaptionSet(d)
+    texts = [n.content for l in langs for c in d[l] for n in c.nodes if n.type_ == CaptionNode.TEXT]
+    # WebVTT and SCC write the FIRST language only (documented in the writers): the text the document is produced
+    # from is that language's text
+    written = langs[:1] if name in FIRST_LANGUAGE_ONLY else langs
+    wtexts = [n.content for l in written for c in d[l] for n in c.nodes if n.type_ == CaptionNode.TEXT]
+    info = {
+        "langs": nlangs, "empty_first": 0 in empty_at, "empty_later": bool(empty_at - {0}),
+        "marker_free": all(in_domain_text(name, t) for t in texts),
+        "visible": any(gens.visible(t) for t in wtexts),
+        "literal_other": sorted({h for t in texts for h in literal_other_marker(name, t)}),
+        "inner_break": any(any(ch in t for ch in "\n\r\x0b\x0c\x1c\x1d\x1e\x85\u2028\u2029") for t in texts),
+        "styled": any(n.type_ == CaptionNode.STYLE for l in langs for c in d[l] for n in c.nodes),
+        "ncaps": sum(len(d[l]) for l in langs), "positioned": positioned[0],
+    }
+    return cs, info
 
 
 BOUNDARY_SPANS = [(0, 2000000), (1, 2000001), (39999, 2000000), (40000, 3000000), (0, 30000), (0, 39999),
                   (40000, 70000), (999, 1001), (3599999999, 3600000001), (86399000000, 86399999999)]
 
 
-def boundary_cases(rng):
-    """every non-SCC writer x first-cue spans on the frame / millisecond / hour boundaries (incl. a cue that lies
-    inside MicroDVD frame 0 and a cue shorter than one frame), followed by an ordinary second cue"""
-    from pycaption import CaptionSet, CaptionList
+def boundary_cases():
+    """every non-SCC writer x first-cue spans on the frame / millisecond / hour boundaries (incl. a cue that lies inside
+    MicroDVD frame 0 and a cue shorter than one frame) followed by an ordinary second cue; plus the deterministic shapes
+    behind the recorded findings: a single cue whose only text is '|', and (repaired) an empty first language and a line
+    break inside a text node"""
     out = []
+    plain = {"langs": 1, "empty_first": False, "empty_later": False, "marker_free": True, "visible": True,
+             "literal_other": [], "inner_break": False, "styled": False, "ncaps": 2}
     for fmt in WRITERS:
         if fmt[0] == "SCC":
             continue
         for (s, e) in BOUNDARY_SPANS:
             for text in ("hello", "25", "7 up"):
                 caps = [gens.build_caption(s, e, [text]), gens.build_caption(e + 5000000, e + 7000000, ["second cue"])]
-                out.append((fmt, CaptionSet({"en-US": CaptionList(caps)})))
+                out.append((fmt, CaptionSet({"en-US": CaptionList(caps)}), dict(plain)))
+        for text in ("|", " | ", "||"):
+            out.append((fmt, CaptionSet({"en-US": CaptionList([gens.build_caption(423940689, 424940688, [text])])}),
+                        dict(plain, ncaps=1)))
+        for text in ("a\nb", "a\rb", "a\u2028b", "a\n\nb"):
+            out.append((fmt, CaptionSet({"en-US": CaptionList([gens.build_caption(10 ** 6, 2 * 10 ** 6, [text])])}),
+                        dict(plain, ncaps=1, inner_break=True)))
+        for text in NEAR_MARKER_TEXTS:        # one character away from a marker: in the domain
+            out.append((fmt, CaptionSet({"en-US": CaptionList([gens.build_caption(10 ** 6, 2 * 10 ** 6, ["hello"]),
+                                                               gens.build_caption(3 * 10 ** 6, 4 * 10 ** 6, [text])])}),
+                        dict(plain, inner_break="\n" in text)))
+        out.append((fmt, CaptionSet({"en-US": CaptionList(), "fr": CaptionList([gens.build_caption(10 ** 6, 2 * 10 ** 6, ["x"])])}),
+                    dict(plain, langs=2, empty_first=True, ncaps=1, visible=fmt[0] not in FIRST_LANGUAGE_ONLY)))
+        out.append((fmt, CaptionSet({"en-US": CaptionList([gens.build_caption(10 ** 6, 2 * 10 ** 6, ["x"])]), "fr": CaptionList()}),
+                    dict(plain, langs=2, empty_later=True, ncaps=1)))
     return out
 
 
-def run_own_output(ctx, res, n):
-    cases = boundary_cases(ctx.rng)
+def classify_failure(name, doc, det, rd):
+    """shape of an own-output failure, from what FAILED (not from the input)"""
+    lines = [l for l in doc.splitlines() if l]
+    if name == "MicroDVD" and isinstance(det, Ok) and det.v is MicroDVDReader and isinstance(rd, Err):
+        if rd.code == 3 and lines and re.match(r"\{0\}\{0\}", lines[0]):
+            return "microdvd-cue-inside-frame-0"
+        if rd.code == 1 and lines and all(re.fullmatch(r"\{\d+\}\{\d+\}", l) for l in lines):
+            return "microdvd-only-cues-without-text"
+    if name == "SRT" and isinstance(det, Ok) and det.v is None and doc.startswith("MULTI-LANGUAGE SRT\n"):
+        return "srt-separator-before-first-cue"
+    return "other"
+
+
+def det_name(det):
+    if isinstance(det, Err):
+        return "raise:%d" % det.code
+    return det.v.__name__ if det.v is not None else "None"
+
+
+def judge_own(fmt, cs, info, res, docs_out=None):
+    name, W, R = fmt
+    dist = res["distribution"]
+    out = impl.call(lambda: W().write(cs))
+    res["evaluations"] += 1
+    if not isinstance(out, Ok):
+        # a writer failure is not C20's business (C03/C07/C17 own it); skip but count
+        bump(dist, "D_writer_raised_" + name)
+        return
+    doc = out.v
+    for k in ("empty_first", "empty_later", "inner_break", "styled", "positioned"):
+        bump(dist, "D_" + k, int(bool(info.get(k))))
+    bump(dist, "D_languages_%d" % info["langs"])
+    bump(dist, "D_text_with_a_later_or_positional_marker", int(bool(info["literal_other"])))
+    if not info["marker_free"]:
+        bump(dist, "D_out_of_domain_text_has_earlier_marker(not judged)")
+        return
+    if not info["visible"] or not doc.strip():
+        bump(dist, "D_out_of_domain_no_visible_text(not judged)")
+        return
+    if docs_out is not None:
+        docs_out.append((name, doc))
+    bump(dist, "D_judged_" + name)
+    bump(dist, "D_doc_chars_max_" + name, max(0, len(doc) - dist.get("D_doc_chars_max_" + name, 0)))
+    det = impl.call(lambda: pycaption.detect_format(doc))
+    good = isinstance(det, Ok) and det.v is R
+    rd = None
+    if good:
+        rd = impl.call(lambda: R().read(doc), timeout=120)
+        good = isinstance(rd, Ok)
+    res["nontrivial"].add(("own", name, hash(doc)))
+    if good:
+        return
+    shape = classify_failure(name, doc, det, rd)
+    v = {"kind": "own-output-not-recognised:" + shape, "fmt": name, "shape": shape, "det": det_name(det),
+         "read_err": rd.code if isinstance(rd, Err) else None, "first_language_empty": bool(info["empty_first"]),
+         "what": f"{name} writer output detected as {det_name(det)}"
+                 + (f", {R.__name__}.read raised {impl.ERR_NAMES.get(rd.code, rd.code)}" if isinstance(rd, Err) else ""),
+         "input": gens.describe_capset(cs) if info["ncaps"] <= 8 else "(%d captions)" % info["ncaps"],
+         "document": doc if len(doc) < 4000 else doc[:4000], "replay": "own", "stream": "D"}
+    if info["literal_other"] and shape == "other":
+        # outside the LITERAL reading of the domain (text carries a later / positional format's marker): counted
+        bump(dist, "info_own_output_failure_outside_literal_domain")
+        res.setdefault("notes", []).append("own-output failure on text with another format's marker (%s): %s"
+                                           % (",".join(info["literal_other"]), v["what"]))
+        return
+    res["violations"].append(v)
+
+
+def run_own_output(ctx, res, n, docs_out):
+    cases = boundary_cases()
     for i in range(n):
         fmt = WRITERS[i % len(WRITERS)]
-        cases.append((fmt, own_output_case(ctx.rng, fmt)))
-    for fmt, cs in cases:
-        name, W, R = fmt
-        out = impl.call(lambda: W().write(cs))
-        res["evaluations"] += 1
-        if not isinstance(out, Ok):
-            # a writer failure is not C20's business (C03/C07 own it); skip but count
-            res["distribution"]["writer_raised"] = res["distribution"].get("writer_raised", 0) + 1
-            continue
-        doc = out.v
-        det = impl.call(lambda: pycaption.detect_format(doc))
-        good = isinstance(det, Ok) and det.v is R
-        rd = None
-        if good:
-            rd = impl.call(lambda: R().read(doc))
-            good = isinstance(rd, Ok) and not rd.v.is_empty()
-        res["nontrivial"].add(("own", name, doc))
-        res["distribution"]["own_" + name] = res["distribution"].get("own_" + name, 0) + 1
-        if not good:
-            first = cs.get_captions(cs.get_languages()[0])[0]
-            shape = ("microdvd-cue-inside-frame-0" if name == "MicroDVD" and first.start * 25 // 10**6 == 0
-                     and first.end * 25 // 10**6 == 0 else "other")
-            res["violations"].append({
-                "kind": "own-output-not-recognised:" + shape, "fmt": name, "shape": shape,
-                "what": f"{name} writer output detected as {det!r} / read {rd!r}",
-                "input": gens.describe_capset(cs), "document": doc, "replay": "own", "stream": "D"})
+        cs, info = own_output_case(ctx.rng, fmt)
+        cases.append((fmt, cs, info))
+    for fmt in WRITERS:                                       # large documents (> 4 KB, > 64 KB)
+        for big in ([60, 500] if not ctx.thorough else [60, 200, 500, 1500]):
+            if fmt[0] == "SCC" and big > 200:
+                big = 200
+            cs, info = own_output_case(ctx.rng, fmt, big=big)
+            cases.append((fmt, cs, info))
+    for fmt, cs, info in cases:
+        judge_own(fmt, cs, info, res, docs_out)
 
 
-def documents(ctx):
-    docs = []
+# ------------------------------------------------------------------------------------------------ stream C
+FILLER_WORDS = ["lorem", "ipsum", "dolor", "sit", "amet", "12", "0", "-", ">", "<", "{", "}", "tt", "sami", "WEB", "VTT",
+                "\n", "\n\n", "\r\n", " ", "  ", "\t", "\u00e9t\u00e9", "\u4e2d\u6587", "\U0001F600", "00:00:01,000", "--"]
+MARKERS = ["</tt>", "</TT>", "WEBVTT", "<sami", "<SAMI", "-->", "{1}{2}", "Scenarist_SCC V1.0", "1\n00:00:01,000 --> 00:00:02,000\n"]
+
+
+def random_strings(ctx):
     rng = ctx.rng
-    for fmt in WRITERS:
-        for _ in range(ctx.n(1, 4)):
-            cs = own_output_case(rng, fmt)
-            out = impl.call(lambda: fmt[1]().write(cs))
-            if isinstance(out, Ok):
-                docs.append(out.v)
-    return docs
+    syms = CORE + EXT
+    out = []
+    for _ in range(ctx.n(2000, 60000)):                       # symbol soup, 4-12 symbols
+        out.append("".join(rng.choice(syms) for _ in range(rng.randint(4, 12))))
+    for _ in range(ctx.n(1500, 30000)):                       # random text with markers dropped in
+        parts = []
+        for _ in range(rng.randint(1, 30)):
+            r = rng.random()
+            if r < 0.12:
+                parts.append(rng.choice(MARKERS))
+            elif r < 0.3:
+                parts.append(chr(rng.choice([rng.randrange(32, 127), rng.randrange(128, 0x3000), rng.randrange(0x10000, 0x10400)])))
+            elif r < 0.4:
+                parts.append(rng.choice(EXT))
+            else:
+                parts.append(rng.choice(FILLER_WORDS))
+        out.append("".join(parts))
+    for _ in range(ctx.n(24, 200)):                           # long filler, marker late (or none)
+        n = rng.choice([5000, 20000, 70000, 100000])
+        words = []
+        size = 0
+        while size < n:
+            w = rng.choice(FILLER_WORDS)
+            words.append(w)
+            size += len(w)
+        head = rng.choice(["", "", "1\n", "{1}{2}", "Scenarist_SCC V1.0\n", "7\n00:00:01,000 --> 00:00:02,000\n"])
+        tail = rng.choice(MARKERS + ["", ""])
+        out.append(head + "".join(words) + tail + rng.choice(["", "x", "\n"]))
+    return out
+
+
+# ------------------------------------------------------------------------------------------------ stream F
+def shape_request(name, doc):
+    """parse a writer output into the pieces of the document shape of spec/SpecOwn.v (untrusted: the oracle
+    re-assembles the document from the pieces and the harness compares it with the real one)"""
+    if name == "SRT":
+        blocks = (doc + "\n").split("\n\n")
+        if blocks[-1] != "":
+            return None
+        cues = []
+        for b in blocks[:-1]:
+            lines = b.split("\n")
+            if len(lines) < 2:
+                return None
+            cues.append([lines[1], "\n".join(lines[2:])])
+        return (2002, [4, cues]) if cues else None
+    if name == "MicroDVD":
+        lines = doc.split("\n")
+        if lines[-1] != "":
+            return None
+        cues = []
+        for l in lines[:-1]:
+            m = re.match(r"(\{[^{}]*\}\{[^{}]*\})(.*)\Z", l, re.S)
+            if not m:
+                return None
+            cues.append([m.group(1), m.group(2)])
+        if not cues:
+            return None
+        m = re.match(r"\{([^{}]*)\}\{([^{}]*)\}\Z", cues[0][0])
+        return (2002, [1, [m.group(1), m.group(2), cues[0][1], cues[1:]]])
+    if name == "WebVTT":
+        if not doc.startswith("WEBVTT\n\n"):
+            return None
+        return (2002, [2, doc[len("WEBVTT\n\n"):].split("\n")])
+    if name == "SCC":
+        head = "Scenarist_SCC V1.0\n\n"
+        if not doc.startswith(head):
+            return None
+        return (2002, [5, doc[len(head):]])
+    return None
+
+
+def run_shapes(res, judged):
+    """judged: (format name, document) of every in-domain writer output of stream D.  Each one that is an INSTANCE of
+    the theorem's document shape with true hypotheses is covered by C20_own_output_<fmt>: the model then predicts its
+    own format, and the implementation must agree (alarm level)."""
+    dist = res["distribution"]
+    reqs, items = [], []
+    for name, doc in judged:
+        if name in ("DFXP", "SAMI"):
+            continue
+        rq = shape_request(name, doc)
+        if rq is None:
+            bump(dist, "F_not_parsed_as_shape_" + name)
+            continue
+        reqs.append(rq)
+        items.append((name, doc))
+    for (name, doc), r in zip(items, oracle_batch(reqs)):
+        res["evaluations"] += 1
+        if r == [-1] or r[0] != doc:
+            bump(dist, "F_not_an_instance_of_the_shape_" + name)
+            continue
+        if r[1] != 1:
+            bump(dist, "F_instance_but_hypotheses_false_" + name)
+            continue
+        bump(dist, "F_instances_covered_by_theorem_" + name)
+        det = call_fast(lambda: pycaption.detect_format(doc))
+        want = dict((n, rd) for n, _, rd in WRITERS)[name]
+        if not (isinstance(det, Ok) and det.v is want):
+            res["disagreements"].append({"input": doc[:2000], "stream": "F", "what": "document is an instance of the "
+                                         "own-output theorem for %s but the implementation detects %s" % (name, det_name(det))})
 
 
 def run(ctx):
     res = {"evaluations": 0, "nontrivial": set(), "violations": [], "disagreements": [], "distribution": {},
-           "streams": 4, "notes": []}
+           "streams": 6, "notes": []}
+    dist = res["distribution"]
+    rng = ctx.rng
+    # E: marker boundary cases (sniffer-level, alarm level)
+    bs = boundary_strings()
+    dist["E_marker_boundary_cases"] = len(bs)
+    check_strings(bs, res, "E", strict_sniffers=True)
     # A: exhaustive short strings
     maxlen = ctx.n(3, 4)
     strings = [""]
     for L in range(1, maxlen + 1):
-        strings.extend("".join(t) for t in itertools.product(SYMS, repeat=L))
-    res["distribution"]["A_exhaustive_len_le_%d" % maxlen] = len(strings)
+        strings.extend("".join(t) for t in itertools.product(CORE, repeat=L))
+    dist["A_core_exhaustive_len_le_%d" % maxlen] = len(strings)
     check_strings(strings, res, "A")
-    # B: truncations of writer outputs at every code point
-    docs = documents(ctx)
-    trunc = []
-    for d in docs:
-        step = 1 if len(d) < 1500 or ctx.thorough else max(1, len(d) // 1500)
-        trunc.extend(d[:k] for k in range(0, len(d) + 1, step))
-    res["distribution"]["B_truncations"] = len(trunc)
-    check_strings(trunc, res, "B")
-    # C: random longer strings
-    rs = []
-    for _ in range(ctx.n(4000, 100000)):
-        L = ctx.rng.randint(5, 12)
-        rs.append("".join(ctx.rng.choice(SYMS) for _ in range(L)))
-    res["distribution"]["C_random"] = len(rs)
+    both = CORE + EXT
+    ext2 = ["".join(t) for L in (1, 2) for t in itertools.product(both, repeat=L) if any(x in EXT for x in t)]
+    dist["A_extended_exhaustive_len_le_2"] = len(ext2)
+    check_strings(ext2, res, "A")
+    if ctx.thorough:
+        ext3 = ["".join(t) for t in itertools.product(both, repeat=3) if any(x in EXT for x in t)]
+    else:
+        ext3 = []
+        while len(ext3) < 12000:
+            t = [rng.choice(both) for _ in range(3)]
+            if any(x in EXT for x in t):
+                ext3.append("".join(t))
+    dist["A_extended_len_3" + ("_exhaustive" if ctx.thorough else "_sampled")] = len(ext3)
+    check_strings(ext3, res, "A")
+    # C: random strings
+    rs = random_strings(ctx)
+    dist["C_random"] = len(rs)
+    dist["C_longest"] = max(len(s) for s in rs)
     check_strings(rs, res, "C")
-    # D: own output
-    run_own_output(ctx, res, ctx.n(120, 3000))
-    res["rule"] = ("A: every string of <= %d symbols over %d symbols (digits, newlines, braces, arrow pieces, "
-                   "marker words); B: every truncation of %d writer outputs; C: random 5-12 symbol strings; "
-                   "D: writer outputs of random caption sets. Non-trivial = some sniffer accepts or detect_format "
-                   "returns a reader (distinct strings counted)." % (maxlen, len(SYMS), len(docs)))
+    # D: own output (collects the complete documents for B)
+    judged = []
+    run_own_output(ctx, res, ctx.n(240, 6000), judged)
+    docs = [d for _, d in judged]
+    # F: writer outputs as instances of the own-output theorems
+    run_shapes(res, judged)
+    # B: complete documents + truncations
+    rng.shuffle(docs)
+    small = [d for d in docs if len(d) < 1500][:ctx.n(12, 60)]
+    large = [d for d in docs if len(d) >= 4096][:ctx.n(4, 24)]
+    dist["B_complete_documents"] = len(docs)
+    check_strings(docs if ctx.thorough else docs[:400], res, "B", complete_docs=True)
+    trunc = []
+    for d in small:
+        trunc.extend(d[:k] for k in range(0, len(d)))
+    for d in large:
+        cuts = sorted({rng.randrange(len(d)) for _ in range(ctx.n(25, 60))} | {len(d) - k for k in range(1, 9)} | set(range(0, 20)))
+        trunc.extend(d[:k] for k in cuts)
+    dist["B_truncations"] = len(trunc)
+    dist["B_longest"] = max([len(t) for t in trunc] + [0])
+    check_strings(trunc, res, "B")
+    res["rule"] = ("E: %d marker boundary cases; A: every string of <= %d symbols over %d core symbols, every string of <= 2 "
+                   "symbols and %s strings of 3 symbols over %d symbols containing an extended one (BOM, tab, NUL, all "
+                   "splitlines boundaries, NBSP, non-ASCII digits/letters); C: symbol soup, random text with markers, filler up "
+                   "to 10^5 characters with a late marker; D: writer outputs of random caption sets (1-3 languages, empty "
+                   "languages, styles, inner line breaks, foreign markers, up to 500 captions) + boundary grid; B: those "
+                   "documents complete and truncated. Non-trivial = some sniffer accepts or detect_format returns a reader "
+                   "(distinct strings counted)." % (len(bs), maxlen, len(CORE), "all" if ctx.thorough else "12000 sampled",
+                                                    len(both)))
     nt = [s for s in res["nontrivial"] if isinstance(s, str)]
     res["samples"] = sorted(nt, key=len)[5:8] + [s for s in nt if "\n" in s][:3]
     res["clauses"] = {
-        "theorem": ["never raises on non-empty strings (all strings)", "first match in documented order (all strings)",
-                    "generated SUPPORTED_READERS order = documented order", "empty string raises no-captions"],
-        "correspondence_only": ["own output is detected as its own format and read back (stream D)",
-                                "str.isdigit/str.lower outside ASCII"]}
+        "theorem": ["model: no sniffer raises on a non-empty string (all strings over all code points, generated Unicode tables)",
+                    "model: detect_format = first reader in the documented order whose own detect accepts; satisfies ok_detect",
+                    "generated SUPPORTED_READERS order = documented order; generated sniffing constants = the documented ones",
+                    "empty string raises no-captions",
+                    "model: own output of the SCC / SRT / MicroDVD / WebVTT document shapes is detected as its own format "
+                    "under marker-freeness (see design/C20.md for the exact hypotheses)"],
+        "correspondence_only": ["detect_format iterates SUPPORTED_READERS and calls reader().detect (streams A-C via the oracle)",
+                                "own output is detected as its own format and read back (stream D), DFXP/SAMI entirely",
+                                "real writer outputs have the document shapes of the own-output theorems",
+                                "the hand-written sniffer bodies (markers generated, boundary cases stream E)",
+                                "str.lower on non-ASCII code points as far as an ASCII marker can see it (decision 5)"]}
     return res
 
 
@@ -218,9 +623,8 @@ def replay(ctx, rec):
     if rec.get("replay") == "detect":
         s = rec["input"]
         ds, df = observe(s)
-        from wire import oracle1
         ok = oracle1(2001, [len(s) > 0, ds, df])
-        return ok != 1, obs_plain(ds, df)
+        return ok[0] != 1, [plain_ds(ds), plain_df(df)]
     if rec.get("replay") == "own":
         doc = rec["document"]
         name = rec["fmt"]
@@ -228,7 +632,7 @@ def replay(ctx, rec):
         det = impl.call(lambda: pycaption.detect_format(doc))
         good = isinstance(det, Ok) and det.v is R
         if good:
-            rd = impl.call(lambda: R().read(doc))
-            good = isinstance(rd, Ok) and not rd.v.is_empty()
+            rd = impl.call(lambda: R().read(doc), timeout=120)
+            good = isinstance(rd, Ok)
         return (not good), repr(det)
     return False, "unknown replay kind"
